@@ -88,19 +88,22 @@ CHECKS = {
 # additions of the third session, appended to the level text / technique
 EXTRA_TEXT = {
  "C01": " One live soak per run executes in a worker built with the Go race detector (other timing for the same oracle; reports go to coverage.race_detector, never a verdict).",
- "C02": " Live soaks with paced submitters (20+ blocks re-read by concurrent readers while submissions go on), one with several readers per node hammering the block API (a worker that dies of a runtime fatal error in Node.GetBlock is the violation node-dies-while-reporting-a-delivered-block; fixed finding a0705e5), one under the Go race detector (reports in coverage.race_detector, never a verdict).",
+ "C02": " A validator of a quiet live network told to leave (Node.Leave) from another goroutine while its slow application is busy with a block. Three quarters of the live soaks run with delays injected at the node's store, transport and application calls. Live soaks with paced submitters (20+ blocks re-read by concurrent readers while submissions go on), one with several readers per node hammering the block API (a worker that dies of a runtime fatal error in Node.GetBlock is the violation node-dies-while-reporting-a-delivered-block; fixed finding a0705e5), one under the Go race detector (reports in coverage.race_detector, never a verdict).",
  "C03": " Creator clocks decades ahead of the executing machine's clock (all / half of the creators) and the block time of the reference execution compared with the median the DAG defines.",
- "C05": " One storage fault per history in the consensus pass that follows the insertion of a node's own event (only the network-wide half of C05 is judged for the faulted node). Live soaks with paced submitters, one under the Go race detector; a soak whose watchdog expires is decided on node state (all idle and a transaction missing = dropped), otherwise inconclusive.",
- "C08": " Validly signed forks of the Byzantine validator with hostile indexes in requests and responses (must be refused without harm). One TCP case under the Go race detector / checkptr, where timing-dependent probes are inconclusive and process death is decisive.",
+ "C05": " Live soaks with crowds of 60 concurrent clients blocked in SubmitTx on one node. One storage fault per history in the consensus pass that follows the insertion of a node's own event (only the network-wide half of C05 is judged for the faulted node). Live soaks with paced submitters, one under the Go race detector; a soak whose watchdog expires is decided on node state (all idle and a transaction missing = dropped), otherwise inconclusive.",
+ "C08": " Every TCP case ends with a phase of 96 connections at once (strangers' validly signed join requests that the application refuses, sync requests): the handlers run side by side in the victim. After an adopted rule-satisfying forgery and after hostile join responses the victim's real peer selector is exercised the way its background loop does. Validly signed forks of the Byzantine validator with hostile indexes in requests and responses (must be refused without harm). One TCP case under the Go race detector / checkptr, where timing-dependent probes are inconclusive and process death is decisive.",
  "C10": " For every block a full-history node delivers, a valid signature by every identity outside the replayed validator set of its round (former, future, not-yet-effective validators) is put through the node's signature pool and must not be recorded.",
  "C11": " Histories with 40-70 KB transactions (replay batches of megabytes); restarts with fast-sync enabled whose fast-forward request nobody answers (fixed finding 1dd4887).",
  "C14": " A third of the forged responses carry decoy entries under known validators' keys in the signature map (junk, random numbers, the validator's genuine signature of another block), which endorse nothing.",
- "C17": " Live cases also run under the Go race detector (reports in coverage.race_detector, never a verdict).",
+ "C17": " Two more live modes: from the instant the node's own babbling loop returns (hook VerifRunBabbleOnce: Suspend() has finished waiting) nothing may change while a live companion keeps gossiping; and the application calls Suspend() on a node with a slow store (injected delays under its core lock) while three validators push at it: from the return on nothing may change. Live cases also run under the Go race detector (reports in coverage.race_detector, never a verdict).",
  "C18": " Honest clocks decades ahead of the executing machine's clock in a share of the synthetic DAGs.",
  "C19": " DAGs in which a validator is removed by a scripted set change and keeps gossiping: every recorded witness must belong to its round's set and every round increment is recounted over validators only.",
- "C20": " Proxy pairs also run under the Go race detector (reports in coverage.race_detector, never a verdict).",
+ "C20": " Three concurrent callers (CommitBlock, GetSnapshot, OnStateChanged from different goroutines, as a running node issues them) against a slow application whose every answer is derived from the call's own argument: each caller must get the answer to its own call or an error. Proxy pairs also run under the Go race detector (reports in coverage.race_detector, never a verdict).",
 }
+EXTRA_TEXT["C06"] = " Live cases (real goroutines, timers, TCP): crowds of 60 concurrent clients at one node and paced submitters with injected delays; when every node is idle under its own lock an accepted transaction that is still uncommitted is a violation (decided on state; an expired watchdog alone is inconclusive)."
+EXTRA_TEXT["C15"] = " Every transported frame that lists two or more validator sets is used to reset six fresh stores whose first-round table must equal the sender's."
 EXTRA_TECH = {
+ "C06": "; plus live soaks with a state-based verdict",
  "C01": "; live soak also under the Go race detector (informational)",
  "C02": "; live soaks with concurrent readers, also under the Go race detector (informational; worker death is decisive)",
  "C05": "; live soaks also under the Go race detector (informational)",
